@@ -1,6 +1,6 @@
 """Family contracts of condition serialisation (C11): for every leaf of the DSL fragment of C11 (all callables on
 value / key / index, length x numeric comparisons, type x equality / membership; JSON-like scalar or type arguments;
-var-positional argument lists of 0..3 items),
+var-positional argument lists of 0..3 items; constant literal mappings whose keys look like path specs),
     js = c.to_json_like()   is JSON-compatible data,
     ConditionLike.from_spec(js)  is structurally identical to c,   and   from_spec(js).to_json_like() = js.
 The leaf c is built by running the real DSL constructor symbolically; from_spec is executed on the serialised value
@@ -58,7 +58,18 @@ def leaves():
     return out
 
 
-LEAVES = leaves()
+def pathlike_leaves():
+    """Literal mappings (and lists of them) whose keys look like data path specs: they are escaped by the serialiser and
+    read back as the literal, not as a path."""
+    V = cnds.Value
+    lits = [{"path": ["a", 0]}, {"PATH.length": 1}, {"\\path": 1, "b": 2}, {"Path": "x", "b": 1}, {"my\\Path": None}]
+    out = [DslLeaf(V, "equal_to", [Const(l)]) for l in lits]
+    out += [DslLeaf(V, "in_", [Const([lits[0], 1])]), DslLeaf(V, "items_contain_any_of", [Const(lits[0]), Const(lits[2])]) if hasattr(V, "items_contain_any_of") else DslLeaf(V, "keys_contain_any_of", [Const("path"), Const("b")]),
+            DslLeaf(V, "equal_to", [Const({"k": lits[0]})])]
+    return out
+
+
+LEAVES = leaves() + pathlike_leaves()
 
 contract(
     "valida.conditions:Condition.to_json_like",
